@@ -67,6 +67,11 @@ CHECKS = {
    "Runs the real block encoders/decoders (iterator and batch families, cross-wise) on generated sequences aimed at scheme boundaries and compares bit for bit; writes real WAL segments and reads every byte-offset truncation through WALSegmentReader and CacheLoader against the 'complete frames before the cut' oracle. Held on the sampled inputs only; the input space is unbounded.",
    "Trusts snappy/simple8b dependencies; timestamps within a block sorted (unsorted only via the raw scheme); sampled, not exhaustive.",
    "DESIGN.md section 3 C13"),
+ "C14": ("exploration",
+   "twin stores (inmem + tsi1) fed the same seeded histories; after every operation ~40 listing / predicate questions per store are compared with a model of the live series evaluated by an independent predicate evaluator; race detector on; worker children under a supervisor",
+   "Seeded histories of 24-39 ops over 2-3 shards (writes creating and re-creating series from small pools, DROP SERIES / DELETE with tag and regex predicates, whole-window and partial deletes, DROP MEASUREMENT, tsi1 log->index-file and multi-level compactions with MaxIndexLogFileSize down to 1 byte, series-file compactions with lowered thresholds, snapshots, TSM compactions, reopen) are applied to an inmem and a tsi1 tsdb.Store; after every op measurements, series (by expression incl. =, !=, =~, !~, AND/OR), tag keys, tag values, cardinalities and per-shard variants are asked of both and compared with the model answer: nothing written missing, nothing dropped lingering or returning, both index types equal.",
+   "Sampled histories; measurement-level NOT/AND forms of SHOW MEASUREMENTS WHERE are not judged (meaning unclear); sketch estimates only sanity-checked; multi-measurement deletes on tsi1 with tiny log files are issued per measurement to avoid a known hang (recorded under C19).",
+   "DESIGN.md section 3 C14"),
  "C15": ("fault_enumeration",
    "hostile byte streams against a real coordinator.Service in a worker child (liveness probe, allocation bound, crash classification) + round-trip equality of every message type and of streamed points, under checkptr",
    "A worker child hosts the real coordinator.Service behind the real tcp.Mux with a real store; the parent logs every stream before sending it: header byte x message type x length prefix (negative, 0, off-by-one, 2^31, MaxMessageSize +-1, 2^62) x payload class (empty, truncated, valid, valid envelope with invalid contents, random), several frames per connection, abrupt close at every position; after each stream a liveness probe must be answered and the allocation delta must stay under MaxMessageSize + 16 MiB; a worker death is classified by the panicking function. Every request/response type and point streams of all types (tags, aux, nil markers, stats frames) must survive encode -> decode.",
